@@ -188,11 +188,14 @@ def e2e_config(draw, front=("single", "single", "joint"), max_N=3, max_W=4, max_
         "mp_env": draw(st.sampled_from([False, False, True])),
         "quantise": draw(st.sampled_from([None, None, None, None, 1.0, 2.0])),
         "stray_pair": draw(st.sampled_from([False, False, False, False, True])),
+        "series_kind": draw(st.sampled_from([None, None, None, None, None, "subclass", "masked", "memmap_ro", "memmap_rw"])),
         # how the caller hands things over: the documented positional order (data, window_size, num_clusters) instead of
         # keywords; for the joint front end, any iterable of arrays (the front end says so), not only a list
         "positional_call": draw(st.sampled_from([False, False, True])),
         "series_container": draw(st.sampled_from(["list", "list", "tuple", "generator", "iterator"])),
     }
+    if cfg["beta_form"] == "scalar" and draw(st.integers(0, 11)) == 0:
+        cfg["beta"] = draw(st.sampled_from([1e300, 1e-300, 5e-324, 1e150]))      # boundary magnitudes of a legal switching cost
     if cfg["beta_form"] == "vector" and draw(st.booleans()):
         cfg["beta_vector_seed"] = draw(st.integers(0, 2 ** 16))
     if cfg["beta_form"] == "vector" and draw(st.booleans()):
